@@ -11,7 +11,8 @@ rather than guess.  The prelude items the rules refer to are in vx/prelude/model
        `if let Entry::Vacant(E) = M.entry(K) { .. E.insert(V) .. } else { .. }` -> contains_key / insert
   R11  `let X = V.drain(..).flat_map(|A| E); .. for P in X { body }` -> `drain_all` + explicit `loop`
   R12  `&Option<Box<dyn CheckerVisitor<M> ..>>` param  -> `&Option<VisitorBox<M>>` + `vlog_: &mut VisitLog<M>`
-  GH   the function gets one extra, erased parameter `gh_: &mut Gh<M>` (the unit's ghost state)
+  GH   the function gets one extra, erased parameter `gh_: &mut Gh<M>` (the unit's ghost state) and hands it
+       on (`&*gh_`) to the GH_CALLEES functions;  GHR: the same, read-only (`gh_: &Gh<M>`)
 """
 import re
 
@@ -286,8 +287,43 @@ def R12(body, ctx):
     return body, n + calls
 
 
+# functions of /repo that are verified in this family with a (read-only) ghost-state parameter (rule GHR)
+GH_CALLEES = ('reconstruct_path',)
+
+
+def _gh_calls(body):
+    """a call of a GH_CALLEES function hands the ghost state on: `f(args)` -> `f(args, &*gh_)`"""
+    mask = code_mask(body)
+    n = 0
+    for f in GH_CALLEES:
+        rx = re.compile(r'(?<![A-Za-z0-9_.])' + re.escape(f) + r'\s*\(')
+        pos = 0
+        while True:
+            m = _first_code_match(rx, body, mask, pos)
+            if not m:
+                break
+            po = m.end() - 1
+            pc = match_close(body, po, mask)
+            args = body[po + 1:pc].rstrip()
+            if args.endswith(','):
+                args = args[:-1]
+            body = body[:po + 1] + args + ', &*gh_' + body[pc:]
+            mask = code_mask(body)
+            pos = po + 1
+            n += 1
+    return body, n
+
+
 def GH(body, ctx):
     """The function receives one extra parameter `gh_: &mut Gh<M>`: the ghost state of the unit (a struct
-    whose fields are all `ghost`, so it is erased at run time and the body cannot compute with it)."""
+    whose fields are all `ghost`, so it is erased at run time and the body cannot compute with it).
+    Calls of GH_CALLEES functions pass it on read-only."""
     ctx['params'] = ctx['params'].rstrip().rstrip(',') + ', gh_: &mut Gh<M>'
+    body, n = _gh_calls(body)
+    return body, 1 + n
+
+
+def GHR(body, ctx):
+    """As GH, for a function that only reads the ghost state: extra parameter `gh_: &Gh<M>`."""
+    ctx['params'] = ctx['params'].rstrip().rstrip(',') + ', gh_: &Gh<M>'
     return body, 1
